@@ -18,7 +18,7 @@ Verbs == {"CAP", "AUTHENTICATE", "PASS", "NICK", "USER", "PING", "PONG", "OPER",
 RECURSIVE Rep(_, _)
 Rep(s, n) == IF n = 0 THEN "" ELSE s \o Rep(s, n - 1)
 
-BaseShapes == { "alice", "nobody", "carol", "#one", "#none", "#one,#one", "alice,alice,nobody", "*", "0", "+o-o+v", ":" }
+BaseShapes == { "alice", "nobody", "carol", "#one", "#none", "#one,#one", "alice,alice,nobody", "alice,carol,alice", "*", "0", "+o-o+v", ":" }
 RichShapes == { Rep("x", 600), "zażółć", "*!*@*", "***?*?**", "a*a!*@*.very.long.host.example.org", "18446744073709551616", "-1",
                 "+b", "+kl-k+l", "-", ",", "#one,,#none", "@#one", "~&@%+#one", "&", "#", "irc.irc", "u", "+iwoOr-iwoOr", "LS", "REQ" }
 ShapesUsed == IF Rich THEN BaseShapes \cup RichShapes ELSE BaseShapes
@@ -32,4 +32,9 @@ ASSUME \A v \in Verbs : \A ps \in AllParamLists : PrintT(<<"LINE", ToJson([verb 
 (* a trailing free-text parameter in addition *)
 ASSUME \A v \in Verbs : \A ps \in ParamLists(1) :
           PrintT(<<"LINE", ToJson([verb |-> v, n |-> 2, line |-> Line(v, ps) \o " :trailing text: with colons "])>>)
+(* mode strings of several letters with their arguments, in the orders in which refusals and acceptances can mix *)
+ModeStrs == {"+ol", "+hl", "+al", "+ql", "+vl", "+lo", "+kl", "+bl", "+ov", "-ol", "+olk", "+lk", "+o-o+l", "+tnl", "+Il", "+eb"}
+ModeArgs == {"alice 10", "10 alice", "alice", "alice bob", "10", "alice 10 key", "", "alice alice 5"}
+ASSUME \A ms \in ModeStrs : \A ar \in ModeArgs :
+          PrintT(<<"LINE", ToJson([verb |-> "MODE", n |-> 3, line |-> "MODE #one " \o ms \o (IF ar = "" THEN "" ELSE " " \o ar)])>>)
 =============================================================================
